@@ -179,7 +179,7 @@ class TableChecker:
             plain = None
         o = observe(E.pconn, E.plog, sh, stmt, mname)
         cat = "schema" if mname != "none" else ("lambda" if sh["k"] == "lam" else "calib")
-        for fld, txt in compare_with_spec(o, f, sh, hit="off"):
+        for fld, txt in compare_with_spec(o, f, sh, hit="nokey" if sh["k"] == "ddl" else "off"):
             out.append((cat, fld, txt))
         if o["out"] != "ok":
             return out
@@ -338,7 +338,7 @@ class Driver:
             if bo["out"] != "ok":
                 bad.append(("bypass-out", "compiled_cache=None execution raised %s" % bo["out"]))
             else:
-                if bo["hit"] != "off":
+                if bo["hit"] != ("nokey" if sh["k"] == "ddl" else "off"):
                     bad.append(("bypass-hit", "compiled_cache=None execution reports cache_hit %s" % bo["hit"]))
                 if act["out"] == "ok":
                     bad += compare_obs(o, bo, "through the cache vs compiled_cache=None on the same engine")
